@@ -180,7 +180,9 @@ def run(ctx):
             tg_true = t["otherwise"] if t["targets"] and t["targets"][0][0] == 0 else None
             tg_false = t["targets"][0][1] if t["targets"] and t["targets"][0][0] == 0 else None
             if tg_true is not None:
-                rt, rf = g.reachable(tg_true, avoid={tg_false}), g.reachable(tg_false, avoid={tg_true})
+                # edge-based: once the flag was seen set, the unrestricted query is unreachable — also through the else
+                # branch of a compound condition such as `flag && !topics.is_empty()`
+                rt, rf = g.reachable(tg_true), g.reachable(tg_false)
                 ok = byt[0].bb in rt and alln[0].bb not in rt and alln[0].bb in rf
         ctx.ob("C30.4", "restricted sharing queries only nodes of the given topics", ok,
                "with share_nodes_with_common_topics the address book must be queried with node_infos_by_topics(topics), "
